@@ -13,6 +13,7 @@ import (
 	"verif/harness"
 	"verif/ref"
 	"verif/schema"
+	"verif/wire"
 )
 
 // BuildPlan says how many cases of a check run under which worker build.
@@ -134,3 +135,5 @@ func plainOnly(quick, thorough int) func(string) []BuildPlan {
 		return []BuildPlan{{"plain", quick}}
 	}
 }
+
+func wireCanon(b []byte) ([]byte, error) { return wire.Canon(b) }
